@@ -164,22 +164,21 @@ char* pv_mseed_str(const pv_mseed* s) {
 }
 
 /* ------------------------------------------------------------------ matcher */
-static int strip(const pv_mlang* L, const uint32_t* in, int n, uint32_t* out, bool* unspec) {
+/* accents (U+0300..U+036F) are ignored in the accent languages.  Whether *other* combining marks count as accents
+ * is not specified by the property; a token containing them is judged under both readings (ignored / ordinary
+ * character) and the verdict is definite only if both readings agree. */
+static int strip(const pv_mlang* L, const uint32_t* in, int n, uint32_t* out, bool all_marks, bool* has_other) {
     int k = 0;
     for (int i = 0; i < n; ++i) {
         if (L->accents) {
-            if (pv_is_accent(in[i])) continue;              /* an accent: ignored */
-            if (pv_is_mark(in[i])) { *unspec = true; continue; }  /* other combining marks: not specified */
+            if (pv_is_accent(in[i])) continue;
+            if (pv_is_mark(in[i])) { *has_other = true; if (all_marks) continue; }
         }
         out[k++] = in[i];
     }
     return k;
 }
-int pv_m_match_cp(const pv_mlang* L, const uint32_t* tok, int n, int* idx_out, int* nmatch_out) {
-    uint32_t t[PV_NWORDS > 1024 ? 1024 : PV_NWORDS];
-    bool unspec = false;
-    if (n > 1000) { if (nmatch_out) *nmatch_out = 0; return PV_REJECT; }
-    int tn = strip(L, tok, n, t, &unspec);
+static int match_stripped(const pv_mlang* L, const uint32_t* t, int tn, int* idx_out) {
     int found = -1, nm = 0;
     for (int w = 0; w < PV_NWORDS; ++w) {
         const uint32_t* wc = L->accents ? L->scp[w] : L->cp[w];
@@ -191,10 +190,24 @@ int pv_m_match_cp(const pv_mlang* L, const uint32_t* tok, int n, int* idx_out, i
         else ok = false;
         if (ok) { if (found < 0) found = w; ++nm; }
     }
-    if (nmatch_out) *nmatch_out = nm;
-    if (unspec) return PV_UNSPEC;
-    if (nm == 0) return PV_REJECT;
-    if (idx_out) *idx_out = found;
+    *idx_out = found;
+    return nm;
+}
+int pv_m_match_cp(const pv_mlang* L, const uint32_t* tok, int n, int* idx_out, int* nmatch_out) {
+    uint32_t t[1024];
+    if (n > 1000) { if (nmatch_out) *nmatch_out = 0; return PV_REJECT; }
+    bool other = false;
+    int tn = strip(L, tok, n, t, false, &other);
+    int ia = -1, na = match_stripped(L, t, tn, &ia);
+    if (nmatch_out) *nmatch_out = na;
+    if (other) {
+        bool dummy = false; int ib = -1;
+        int tb = strip(L, tok, n, t, true, &dummy);
+        int nb = match_stripped(L, t, tb, &ib);
+        if ((na == 0) != (nb == 0) || ia != ib) return PV_UNSPEC;
+    }
+    if (na == 0) return PV_REJECT;
+    if (idx_out) *idx_out = ia;
     return PV_ACCEPT;
 }
 int pv_m_match(const pv_mlang* L, const char* token_nfkd, int* idx_out) {
